@@ -867,7 +867,7 @@ def run_roundtrip(ck, dcmd, trees):
 
 def run(ck):
     hcmd, dcmd = build(ck)
-    ck.level = "other"
+    ck.level = "proof"
     ck.cov["explanation"] = (
         "Exploration with a proved oracle plus an executable Lean model of the C matcher.  The model of usual_regexec "
         "(CM.cExec) is compared with the C code on the whole pmatch array of every execution and is proved equal to the "
